@@ -75,6 +75,9 @@ class Inst:
         return lambda *a, **k: self._cref.world.call(node, [self] + list(a), k)
 
     def _dunder(self, name, *a, **k):
+        own = self.__dict__.get(name)
+        if own is not None:
+            return own(*a, **k)               # supplied by the rule for this one object
         m = self._cref.lookup(name)
         if m is None:
             raise TypeError("%s has no %s" % (self._cref.ci.name, name))
